@@ -176,6 +176,27 @@ Lookup(cfg, st, a) ==
                     ELSE Out(Miss(a), st2, ~forced)
             ELSE Out(Miss(a), st, ~forced)
 
+\* ---- the `static` keyword and default_library -------------------------------------------
+\* dependency.yaml (static), meson.yaml (override_dependency, static), release notes 0.60 ("override_dependency
+\* static"): an override made without `static:` is filed for lookups without the keyword and for the library
+\* kind(s) the overriding (sub)project is built as (its default_library); `dependency(N, static: x)` configures
+\* a fallback subproject as if `default_library=static|shared` had been given for it.  Hence the keyword
+\* selects which kind of library is linked and nothing else: a lookup that configures S itself sees what S
+\* overrides, and the answer (found / origin / version, state of S, system consulted) is the answer of the
+\* same lookup without the keyword - `Lookup` does not read a.static.
+DefLibs == {"shared", "static", "both"}
+StaticKws == {"unset", "true", "false"}
+\* the library kind S is built as when a lookup with keyword s configures it (dl: global default_library,
+\* sdl: default_library in S's own default_options or "none")
+SubKind(dl, sdl, s) == IF s = "true" THEN "static" ELSE IF s = "false" THEN "shared"
+                       ELSE IF sdl # "none" THEN sdl ELSE dl
+\* the lookups (by keyword) an override without `static:` made by a project of that kind is filed for
+OvrIds(kind) == {"unset"} \cup (CASE kind = "static" -> {"true"} [] kind = "shared" -> {"false"} [] OTHER -> {"true", "false"})
+\* the class in which the documents leave no choice: nothing was configured or overridden before the first
+\* lookup (an override made by a project of another kind, or a subproject configured as another kind, is
+\* documented to be invisible to a `static:` lookup) and all lookups of the history carry the same keyword
+StaticClass(cfg, as) == cfg.pre = "none" /\ \A j \in 1..Len(as) : as[j].static = as[1].static
+
 \* ---- folding a history (used by the model and by trace validation) ----------------
 RECURSIVE RunFrom(_, _, _, _)
 \* outcomes (result, state after, asked) of the lookups `as` started in `st`; stops after an error
